@@ -132,6 +132,26 @@ async fn vt_body(seed: u64, trace: Arc<Trace>) -> (Vec<String>, bool, u64) {
             n
         })
     };
+    // a successor takes the subject's name as soon as the subject has begun to exit (the name is released at Stopping, the
+    // subject may still be in post_stop): exit cleanup runs once, so the successor's entry must survive the rest of the exit
+    let successor = if Prng::new(seed ^ 0x5c).chance(1, 2) {
+        let (c, tr, nm) = (actor.get_cell(), trace.clone(), name.clone());
+        Some(vt::spawn_h("c06-successor", async move {
+            for _ in 0..3000 {
+                if c.get_status() >= ActorStatus::Stopping {
+                    break;
+                }
+                tokio::time::sleep(Duration::from_millis(1)).await;
+            }
+            if c.get_status() < ActorStatus::Stopping {
+                return None;
+            }
+            let spec = Arc::new(ProbeSpec::new(30, Some(nm), tr));
+            spawn_probe(&spec, None).await.ok()
+        }))
+    } else {
+        None
+    };
     // waiters (planned up front: if nobody will request an exit, every wait carries a timeout)
     let nwaiters = p.range(1, 8);
     let mut plans = vec![];
@@ -290,6 +310,19 @@ async fn vt_body(seed: u64, trace: Arc<Trace>) -> (Vec<String>, bool, u64) {
         let _ = h.await;
     }
     vt::quiesce(1).await;
+    if let Some(t) = successor {
+        if let Ok(Some((succ, succ_h))) = t.await {
+            let found = ractor::registry::where_is(name.clone()).map(|c| c.get_id());
+            if succ.get_status() == ActorStatus::Running && found != Some(succ.get_id()) {
+                trace.online_violation(
+                    "cleanup-ran-twice",
+                    format!("a successor took the name {name} while the subject was exiting; after the subject has fully stopped where_is yields {found:?} instead of the running successor {}", succ.get_id()),
+                );
+            }
+            succ.stop(None);
+            let _ = succ_h.await;
+        }
+    }
     sup_ref.stop(None);
     let _ = sup_h.await;
     #[cfg(feature = "cluster")]
